@@ -20,6 +20,30 @@
 //! then handles the event and the wake tick exactly as L did. Outputs are stamped with virtual wall
 //! time. Required: no output in any of R's gap ticks, and identical traces of L and R.
 //!
+//! Zippychord (its state is private to kanata, so everything is judged through outputs): besides the
+//! random zippychord family there is a scripted family `zippy-reenable` that walks zippychord's own
+//! countdowns: an opening (non-chord key tapped, chord-subset key tapped alone, two non-chord keys
+//! rolled, a chord key held past on-first-press-chord-deadline, a chord activation, a key zippychord
+//! ignores, nothing), then an idle gap from {0, 1, R/2, R-2 .. R+3, 2R, 3R+7, 1000 .. 9990} around
+//! idle-reactivate-time R (all below the 10 000-tick forced reset; one gap in ten is 10 001 .. 70 000),
+//! optionally interrupted by a tap of a key zippychord ignores (the loop wakes up, no zippy state
+//! change), then a chord attempt (either order, second key at once or around the chord deadline after
+//! the first, with or without shift, optional follow-up key).
+//!
+//! Known cause `zippy-forced-reset-skipped`: a slept-vs-ticked difference of a zippychord
+//! configuration is attributed to it only if two further experiments on the real code agree that
+//! nothing but the ticks *later than 10 000 ticks after the last zippy state change* matter (see
+//! `zippy_forced_reset_explains`): R capped below 10 000 ticks per stretch must equal L, and L kept
+//! awake only in the stretches longer than 10 000 ms must equal its ticking twin. Everything else -
+//! in particular anything that shows with all idle stretches shorter than 10 000 ms, or that depends
+//! on the wait-enable / chord-deadline countdowns - keeps its live `slept-vs-ticked:*` signature.
+//!
+//! Known cause `override-release-marker-cleared-by-os-repeat` (findings/C07-override-release-marker-
+//! cleared-by-repeat.md): tried before the wider `cancelled-macro-key-stale` experiment and only on
+//! configurations with `override-release-on-activation yes` + `defoverrides`; the extra tick is granted
+//! only if an OS repeat event was handled since the last executed tick, so the three repaired
+//! stale-key sites stay under their live signature.
+//!
 //! Part 2: the real `Kanata::start_processing_loop` thread, fed through its real channel with real
 //! sleeps on time-insensitive configurations, must emit the same ordered OS stream as the stepper.
 
@@ -115,12 +139,83 @@ struct Fix {
     pause: bool,
     /// one more tick before blocking when an OS key is down that no layout state backs
     stale: bool,
-    /// (zippychord configs) keep ticking until 10 002 ms after the last input or output
+    /// (zippychord configs) keep ticking inside the wall-time intervals `ZExp::tick_in` (the
+    /// stretches without a zippy state change that last longer than the 10 000-tick forced reset);
+    /// everywhere else the loop sleeps exactly as kanata decides
     zippy: bool,
     /// keep ticking while a one-shot release is due on the next tick (timeout 0, keys present)
     oneshot0: bool,
     /// keep ticking while a dynamic macro is being recorded (the recorder counts ticks as delays)
     recording: bool,
+    /// like `stale`, but only when an OS repeat event was handled since the last executed tick
+    /// (handling a repeat recomputes the override state and thereby wipes the marker that keeps
+    /// kanata awake after an override with override-release-on-activation)
+    stale_rep: bool,
+}
+
+/// zippychord's forced state reset fires after this many consecutive ticks without a zippy state
+/// change (`TICKS_UNTIL_FORCE_STATE_RESET`, documented in findings/C07-zippy-forced-reset-skipped.md)
+const ZCH_FORCED_RESET: u64 = 10_000;
+/// slack for the off-by-one questions (does the tick of the state change count, wake tick, ...)
+const ZCH_MARGIN: u64 = 4;
+
+/// Parameters of the two experiments that decide whether a slept-vs-ticked difference of a
+/// zippychord configuration is the known forced-reset defect (see `judge`).
+#[derive(Default, Clone)]
+struct ZExp {
+    /// L' (`Fix::zippy`): wall-time intervals [from, to] in which the loop is kept from blocking
+    tick_in: Vec<(u64, u64)>,
+    /// R-capped: (start of every stretch without a certain zippy state change, ascending, first
+    /// entry 0; number of gap ticks that may still be executed in that stretch). Gap ticks beyond
+    /// the budget are slept like L does.
+    cap: Option<(Vec<u64>, Vec<u64>)>,
+}
+
+/// names (as printed in the output trace) of the keys zippychord passes through without touching
+/// its state-change counter
+fn zippy_ignored_names() -> &'static std::collections::BTreeSet<String> {
+    static S: std::sync::OnceLock<std::collections::BTreeSet<String>> = std::sync::OnceLock::new();
+    S.get_or_init(|| {
+        (0u16..768)
+            .filter(|c| kanata_parser::keys::OsCode::from_u16(*c).map(|o| o.is_zippy_ignored()).unwrap_or(false))
+            .map(crate::core::sim::code_name)
+            .collect()
+    })
+}
+
+/// Wall times at which zippychord's state-change counter was certainly reset: every release of a
+/// non-ignored key that reached the OS went through `zch_release_key` (or was typed by an
+/// activation, whose press reset the counter in the same tick). Presses are not certain (a press
+/// while zippy is disabled does not count as state change). Starts with 0 (configuration).
+fn sure_resets(trace: &[Out]) -> Vec<u64> {
+    let ign = zippy_ignored_names();
+    let mut v = vec![0u64];
+    for o in trace {
+        if o.kind == crate::core::sim::OutKind::Up && !ign.contains(&o.name) && v.last() != Some(&o.at) {
+            v.push(o.at);
+        }
+    }
+    v
+}
+
+/// stretches [r_i, r_i+1] (the last one open-ended) that are long enough for the forced reset
+fn long_stretches(resets: &[u64], t_end: u64) -> Vec<(u64, u64)> {
+    let mut v = vec![];
+    for (i, r) in resets.iter().enumerate() {
+        match resets.get(i + 1) {
+            Some(n) => {
+                if n - r + ZCH_MARGIN > ZCH_FORCED_RESET {
+                    v.push((*r, *n));
+                }
+            }
+            None => {
+                if t_end.saturating_sub(*r) + ZCH_MARGIN > ZCH_FORCED_RESET {
+                    v.push((*r, u64::MAX));
+                }
+            }
+        }
+    }
+    v
 }
 
 #[derive(Clone, Debug)]
@@ -145,6 +240,8 @@ struct RunRes {
     ended_blocked: bool,
     ticks: u64,
     gap_ticks: u64,
+    /// virtual wall time at which the run ended
+    t_end: u64,
 }
 
 fn one_tick(sim: &mut Sim, t: u64) {
@@ -155,8 +252,9 @@ fn one_tick(sim: &mut Sim, t: u64) {
 /// Execute the processing loop in virtual time over the arrivals `arr` (virtual time, event).
 /// `plan == None`: run L (decisions come from kanata). `plan == Some(p)`: run R (replay p, tick
 /// through every slept gap).
-fn run_loop(sim: &mut Sim, arr: &[(u64, Ev)], final_gap: u64, spin_bound: u64, plan: Option<&[bool]>, fix: Fix) -> RunRes {
+fn run_loop(sim: &mut Sim, arr: &[(u64, Ev)], final_gap: u64, spin_bound: u64, plan: Option<&[bool]>, fix: Fix, zx: &ZExp) -> RunRes {
     let mut res = RunRes::default();
+    let mut cap = zx.cap.clone();
     let is_r = plan.is_some();
     let mut t = T0;
     let mut last_tick = T0;
@@ -166,15 +264,12 @@ fn run_loop(sim: &mut Sim, arr: &[(u64, Ev)], final_gap: u64, spin_bound: u64, p
     let mut spin_after_last = 0u64;
     let mut stale_used = false;
     let mut stale_defer = false;
-    let mut last_activity = T0;
-    let mut seen_outputs = 0usize;
+    // an OS repeat event was handled and no tick has been executed since
+    let mut rep_since_tick = false;
     loop {
+        res.t_end = t;
         let mut own = sim.k.can_block_update_idle_waiting(ms_elapsed);
-        if sim.trace.len() != seen_outputs {
-            seen_outputs = sim.trace.len();
-            last_activity = t;
-        }
-        if fix.stale && !is_r && !stale_os_key(sim) {
+        if (fix.stale || fix.stale_rep) && !is_r && !stale_os_key(sim) {
             // the condition is gone: a later occurrence gets its own extra tick
             stale_used = false;
             stale_defer = false;
@@ -183,7 +278,7 @@ fn run_loop(sim: &mut Sim, arr: &[(u64, Ev)], final_gap: u64, spin_bound: u64, p
             if fix.pause && sim.k.layout.b().oneshot.pause_input_processing_ticks > 0 {
                 own = false;
             }
-            if fix.stale && !stale_used && stale_os_key(sim) {
+            if (fix.stale || (fix.stale_rep && rep_since_tick)) && !stale_used && stale_os_key(sim) {
                 // (spent once a tick has really been executed, see below)
                 stale_defer = true;
                 own = false;
@@ -194,7 +289,7 @@ fn run_loop(sim: &mut Sim, arr: &[(u64, Ev)], final_gap: u64, spin_bound: u64, p
             if fix.recording && sim.k.dynamic_macro_record_state.is_some() {
                 own = false;
             }
-            if fix.zippy && t - last_activity < 10_002 {
+            if fix.zippy && zx.tick_in.iter().any(|(a, b)| *a <= t && t <= *b) {
                 own = false;
             }
         }
@@ -227,7 +322,18 @@ fn run_loop(sim: &mut Sim, arr: &[(u64, Ev)], final_gap: u64, spin_bound: u64, p
             if is_r {
                 // tick through the gap instead of sleeping
                 let mut turned_false = false;
-                for _ in 0..gap {
+                let allowed = match cap.as_mut() {
+                    Some((starts, budget)) => {
+                        let si = starts.partition_point(|r| *r <= t).saturating_sub(1);
+                        let a = gap.min(budget.get(si).copied().unwrap_or(0));
+                        if let Some(b) = budget.get_mut(si) {
+                            *b -= a;
+                        }
+                        a
+                    }
+                    None => gap,
+                };
+                for _ in 0..allowed {
                     t += 1;
                     let n0 = sim.trace.len();
                     one_tick(sim, t);
@@ -244,6 +350,8 @@ fn run_loop(sim: &mut Sim, arr: &[(u64, Ev)], final_gap: u64, spin_bound: u64, p
                 if turned_false {
                     res.unblocked_in_gap += 1;
                 }
+                // (capped run only) the rest of the gap is slept
+                t += gap - allowed;
             } else {
                 t += gap;
             }
@@ -251,17 +359,18 @@ fn run_loop(sim: &mut Sim, arr: &[(u64, Ev)], final_gap: u64, spin_bound: u64, p
                 Some(ev) => {
                     next += 1;
                     stale_used = false;
-                    last_activity = t;
                     // wake: last_tick = now - 1 ms; handle the event; exactly one tick
                     sim.now = t;
                     sim.apply(ev);
                     one_tick(sim, t);
+                    rep_since_tick = false;
                     res.ticks += 1;
                     last_tick = t;
                     ms_elapsed = 1;
                 }
                 None => {
                     res.ended_blocked = true;
+                    res.t_end = t;
                     break;
                 }
             }
@@ -270,13 +379,16 @@ fn run_loop(sim: &mut Sim, arr: &[(u64, Ev)], final_gap: u64, spin_bound: u64, p
             if avail {
                 sim.now = t;
                 sim.apply(&arr[next].1);
+                if matches!(arr[next].1, Ev::Rep(_)) {
+                    rep_since_tick = true;
+                }
                 next += 1;
                 stale_used = false;
-                last_activity = t;
             }
             let e = t - last_tick;
             for _ in 0..e {
                 one_tick(sim, t);
+                rep_since_tick = false;
                 res.ticks += 1;
             }
             if e > 0 && stale_defer {
@@ -322,16 +434,22 @@ struct Judged {
 }
 
 /// Run L and R on one (config, history) pair. Err = configuration rejected.
-fn judge_raw(cfg: &str, files: &FileMap, h: &[Ev], final_gap: u64, spin_bound: u64, zippy: bool, fix: Fix) -> Result<Judged, String> {
+fn judge_raw(cfg: &str, files: &FileMap, h: &[Ev], final_gap: u64, spin_bound: u64, fix: Fix, zx: &ZExp) -> Result<Judged, String> {
     let arr = arrivals(h);
     let mut sim_l = Sim::new_with_files(cfg, files.clone())?;
-    let l = run_loop(&mut sim_l, &arr, final_gap, spin_bound, None, fix);
+    let l = run_loop(&mut sim_l, &arr, final_gap, spin_bound, None, fix, zx);
     let ltrace = std::mem::take(&mut sim_l.trace);
     drop(sim_l);
     let mut sim_r = Sim::new_with_files(cfg, files.clone())?;
-    let r = run_loop(&mut sim_r, &arr, final_gap, spin_bound, Some(&l.plan), Fix::default());
+    let r = run_loop(&mut sim_r, &arr, final_gap, spin_bound, Some(&l.plan), Fix::default(), &ZExp::default());
     let rtrace = std::mem::take(&mut sim_r.trace);
     drop(sim_r);
+    let viol = compare(&l, &r, &ltrace, &rtrace);
+    Ok(Judged { l, r, ltrace, rtrace, viol })
+}
+
+/// the two clauses of the oracle on a pair of runs: (signature, description) of what is violated
+fn compare(l: &RunRes, r: &RunRes, ltrace: &[Out], rtrace: &[Out]) -> Vec<(String, String)> {
     let mut viol = vec![];
     // (a redundant release - of something the OS already has up - is ignored by an OS)
     if let Some((bi, o)) = r.gap_out.iter().find(|(_, o)| !o.redundant) {
@@ -349,7 +467,7 @@ fn judge_raw(cfg: &str, files: &FileMap, h: &[Ev], final_gap: u64, spin_bound: u
             ),
         ));
     }
-    if let Some(d) = first_diff(&ltrace, &rtrace) {
+    if let Some(d) = first_diff(ltrace, rtrace) {
         // class of the first differing output
         let fa: Vec<&Out> = ltrace.iter().filter(|o| !o.redundant).collect();
         let fb: Vec<&Out> = rtrace.iter().filter(|o| !o.redundant).collect();
@@ -373,38 +491,104 @@ fn judge_raw(cfg: &str, files: &FileMap, h: &[Ev], final_gap: u64, spin_bound: u
         let at = fa.get(i).map(|o| o.at).into_iter().chain(fb.get(i).map(|o| o.at)).min().unwrap_or(0);
         let prev_gap = l.blocks.iter().filter(|b| b.gap > 0 && b.t + b.gap <= at).last().map(|b| b.gap).unwrap_or(0);
         let sig = format!("slept-vs-ticked:{cls}");
-        let _ = zippy;
         viol.push((sig, format!("outputs differ between sleeping through the blocked gaps and ticking through them (slept vs ticked): {d}; the last blocked gap before the difference was {prev_gap} ms")));
     }
-    Ok(Judged { l, r, ltrace, rtrace, viol })
+    viol
+}
+
+/// Is a violation of a zippychord configuration (found by the plain L/R pair `j`) the known
+/// defect "the 10 000-tick forced reset does not happen while the loop sleeps"? That defect can
+/// only act through ticks that come more than 10 000 ticks after the last zippy state change, so
+/// both of the following must hold (each is an experiment on the real code):
+///
+/// * **needs-the-late-ticks**: run R-capped = R, except that in every stretch between two
+///   certain state changes (as L shows them) it executes gap ticks only as long as the total
+///   number of ticks in the stretch (L's own + gap ticks) stays below 10 000, and sleeps the rest
+///   of the gap like L. The forced reset cannot fire in it; every shorter countdown (wait-enable,
+///   chord deadline, anything else) runs as in R. R-capped must agree with L completely.
+/// * **only-the-late-stretches**: run L' = L, except that it is kept from blocking inside the
+///   stretches (as R shows them) that are longer than 10 000 ms; in all other stretches it sleeps
+///   exactly like L. L' and its ticking twin must agree completely.
+///
+/// A difference that shows with stretches shorter than 10 000 ms fails both; a difference caused by
+/// a countdown shorter than 10 000 ticks inside a long stretch fails the first.
+fn zippy_forced_reset_explains(cfg: &str, files: &FileMap, h: &[Ev], final_gap: u64, spin_bound: u64, j: &Judged) -> bool {
+    let tick_in = long_stretches(&sure_resets(&j.rtrace), j.r.t_end);
+    if tick_in.is_empty() {
+        return false;
+    }
+    // R-capped against L
+    let starts = sure_resets(&j.ltrace);
+    let mut budget = vec![];
+    for (i, s) in starts.iter().enumerate() {
+        let next = starts.get(i + 1).copied();
+        let end = next.unwrap_or(j.l.t_end.max(*s));
+        let wall = end - s + 1;
+        // a blocked point belongs to the stretch of the last certain state change at or before it
+        let slept: u64 = j.l.blocks.iter().filter(|b| b.t >= *s && next.map(|n| b.t < n).unwrap_or(true)).map(|b| b.gap).sum();
+        let executed = wall.saturating_sub(slept.min(wall));
+        budget.push((ZCH_FORCED_RESET - ZCH_MARGIN).saturating_sub(executed));
+    }
+    let arr = arrivals(h);
+    let Ok(mut sim_c) = Sim::new_with_files(cfg, files.clone()) else { return false };
+    let zx = ZExp { tick_in: vec![], cap: Some((starts, budget)) };
+    let rc = run_loop(&mut sim_c, &arr, final_gap, spin_bound, Some(&j.l.plan), Fix::default(), &zx);
+    let ctrace = std::mem::take(&mut sim_c.trace);
+    drop(sim_c);
+    if !compare(&j.l, &rc, &j.ltrace, &ctrace).is_empty() {
+        return false;
+    }
+    // L' against its ticking twin
+    let zx = ZExp { tick_in, cap: None };
+    match judge_raw(cfg, files, h, final_gap, spin_bound, Fix { zippy: true, ..Default::default() }, &zx) {
+        Ok(jf) => jf.viol.is_empty(),
+        Err(_) => false,
+    }
 }
 
 /// `judge_raw` without any emulated repair; if that shows a violation, the emulated repairs are
 /// tried one at a time (then all together) to see whether one known cause explains everything. In
 /// that case the violations are replaced by a single one whose signature names the cause.
 fn judge(cfg: &str, files: &FileMap, h: &[Ev], final_gap: u64, spin_bound: u64, zippy: bool) -> Result<Judged, String> {
-    let mut j = judge_raw(cfg, files, h, final_gap, spin_bound, zippy, Fix::default())?;
+    let none = ZExp::default();
+    let mut j = judge_raw(cfg, files, h, final_gap, spin_bound, Fix::default(), &none)?;
     if j.viol.is_empty() {
         return Ok(j);
     }
-    let mut tries: Vec<(&str, Fix)> = vec![
-        ("input-pause-countdown-frozen", Fix { pause: true, ..Default::default() }),
+    let known = |j: &mut Judged, name: &str, how: &str| {
+        let first = j.viol[0].clone();
+        j.viol = vec![(format!("known-cause:{name}"), format!("{} [{}] — {how} ({name})", first.1, first.0))];
+    };
+    let mut tries: Vec<(&str, Fix)> = vec![("input-pause-countdown-frozen", Fix { pause: true, ..Default::default() })];
+    if cfg.contains("override-release-on-activation yes") && cfg.contains("(defoverrides") {
+        // narrower than the next one, therefore tried first
+        tries.push(("override-release-marker-cleared-by-os-repeat", Fix { stale_rep: true, ..Default::default() }));
+    }
+    tries.extend_from_slice(&[
         ("cancelled-macro-key-stale", Fix { stale: true, ..Default::default() }),
         ("oneshot-release-due-with-zero-delay", Fix { oneshot0: true, ..Default::default() }),
         ("dynamic-macro-recorder-delay-frozen", Fix { recording: true, ..Default::default() }),
-    ];
+    ]);
     if zippy {
         tries.push(("zippy-forced-reset-skipped", Fix { zippy: true, ..Default::default() }));
     }
-    tries.push(("several", Fix { pause: true, stale: true, zippy, oneshot0: true, recording: true }));
+    // (the zippychord experiment is not part of "several": it is only meaningful on its own)
+    tries.push(("several", Fix { pause: true, stale: true, zippy: false, oneshot0: true, recording: true, stale_rep: false }));
     for (name, fix) in tries {
-        if let Ok(jf) = judge_raw(cfg, files, h, final_gap, spin_bound, zippy, fix) {
+        if fix.zippy {
+            if zippy_forced_reset_explains(cfg, files, h, final_gap, spin_bound, &j) {
+                known(
+                    &mut j,
+                    name,
+                    "needs ticks that come more than 10000 ticks after the last zippychord state change: disappears when the ticking run is capped below that, and when the loop is kept from blocking in exactly the stretches longer than that",
+                );
+                return Ok(j);
+            }
+            continue;
+        }
+        if let Ok(jf) = judge_raw(cfg, files, h, final_gap, spin_bound, fix, &none) {
             if jf.viol.is_empty() {
-                let first = j.viol[0].clone();
-                j.viol = vec![(
-                    format!("known-cause:{name}"),
-                    format!("{} [{}] — disappears when the loop is kept from blocking while that state is pending ({name})", first.1, first.0),
-                )];
+                known(&mut j, name, "disappears when the loop is kept from blocking while that state is pending");
                 return Ok(j);
             }
         }
@@ -472,11 +656,14 @@ struct Shaped {
     numbers: Vec<u64>,
     red: u64,
     zippy: bool,
+    /// zippy-reenable family: (idle-reactivate-time, on-first-press-chord-deadline) in effect
+    zr: Option<(u64, u64)>,
 }
 
 const FAMILIES: &[&str] = &[
     "tap-hold", "one-shot", "tap-dance", "chords-v1", "chords-v2", "macro", "sequence", "caps-word", "hold-for-duration",
     "on-idle", "mouse-repeat", "switch-key-timing", "zippychord", "dynamic-macro", "mixed", "pause-and-repress",
+    "zippy-reenable",
 ];
 
 fn shaped(rng: &mut Rng, fam: usize) -> Shaped {
@@ -587,6 +774,37 @@ fn shaped(rng: &mut Rng, fam: usize) -> Shaped {
             s.numbers.extend_from_slice(&[t * 10, t2 * 10, 500]);
             s.text = format!("(defcfg process-unmapped-keys yes)\n(defsrc d y 1 a spc)\n(deflayer l0 d y 1 a spc)\n(defzippy zfile{opts})\n");
             s.files = vec![("zfile".into(), "dy\tday\ndy 1\tMonday\nya\tyes\n".into())];
+        }
+        "zippy-reenable" => {
+            // zippychord's own countdowns: idle-reactivate-time (wait-enable after non-chord
+            // typing) and on-first-press-chord-deadline, over several chord files and option sets
+            s.zippy = true;
+            s.keys = ks(&["d", "y", "1", "a", "x", "spc", "lsft"]);
+            let react = *rng.pick(&[0u64, 0, 5, 20, 50, 200, 700, 3000]);
+            let deadline = *rng.pick(&[0u64, 0, 20, 50, 200, 2000]);
+            let mut opts = String::new();
+            if deadline > 0 {
+                opts.push_str(&format!(" on-first-press-chord-deadline {deadline}"));
+            }
+            if react > 0 {
+                opts.push_str(&format!(" idle-reactivate-time {react}"));
+            }
+            match rng.usize(4) {
+                0 => opts.push_str(" smart-space add-space-only"),
+                1 => opts.push_str(" smart-space full"),
+                _ => {}
+            }
+            let react = if react == 0 { 500 } else { react };
+            let deadline = if deadline == 0 { 500 } else { deadline };
+            s.zr = Some((react, deadline));
+            s.numbers = vec![react, deadline];
+            s.text = format!("(defcfg process-unmapped-keys yes)\n(defsrc d y 1 a x spc lsft)\n(deflayer l0 d y 1 a x spc lsft)\n(defzippy zfile{opts})\n");
+            let file = match rng.usize(3) {
+                0 => "dy\tday\ndy 1\tMonday\nya\tyes\n",
+                1 => "dy\tday\n",
+                _ => "dy\tday\ndya\tdaily\ndy 1\tMonday\n 1\tone\n",
+            };
+            s.files = vec![("zfile".into(), file.into())];
         }
         "dynamic-macro" => {
             let beh = *rng.pick(&["constant", "recorded"]);
@@ -728,7 +946,135 @@ fn scripted_prefix(rng: &mut Rng, s: &Shaped) -> Vec<Ev> {
     h
 }
 
+/// One probe of a zippy-reenable history: an opening that puts zippychord into some state, an idle
+/// gap, then a chord attempt. Indices are positions in the history.
+#[derive(Clone, Debug)]
+struct ZrMark {
+    opening: &'static str,
+    /// the opening ends with zippychord waiting to be re-enabled (non-chord typing, all released)
+    disturbs: bool,
+    gap: u64,
+    split: bool,
+    /// the second key of the chord attempt comes around on-first-press-chord-deadline after the
+    /// first (the deadline runs while a key is held and nothing else happens)
+    late_second: bool,
+    /// history index at which the idle gap starts
+    gap_from: usize,
+    /// history index of the first event of the chord attempt / one past its last event
+    probe_from: usize,
+    probe_to: usize,
+}
+
+const ZR_OPENINGS: &[&str] = &["nonchord-tap", "subset-key-tap", "rolled-nonchords", "deadline-expiry", "chord-activation", "ignored-key-tap", "none"];
+
+/// non-chord typing (or a chord, or nothing), an idle gap around idle-reactivate-time, then a chord
+/// attempt; 1..=3 rounds
+fn zr_hist(rng: &mut Rng, react: u64, deadline: u64) -> (Vec<Ev>, Vec<ZrMark>) {
+    let k = |n: &str| osc(n);
+    let mut h: Vec<Ev> = vec![];
+    let mut marks = vec![];
+    let t = |h: &mut Vec<Ev>, n: u64| {
+        if n > 0 {
+            h.push(Ev::T(n as u32));
+        }
+    };
+    let tap = |h: &mut Vec<Ev>, n: &str, hold: u64| {
+        h.push(Ev::P(k(n)));
+        if hold > 0 {
+            h.push(Ev::T(hold as u32));
+        }
+        h.push(Ev::R(k(n)));
+    };
+    let rounds = 1 + rng.usize(3);
+    for _ in 0..rounds {
+        let opening = *rng.pick(ZR_OPENINGS);
+        let mut disturbs = true;
+        match opening {
+            "nonchord-tap" => tap(&mut h, *rng.pick(&["x", "spc"]), *rng.pick(&[0u64, 1, 10, 40])),
+            "subset-key-tap" => tap(&mut h, *rng.pick(&["d", "y", "a"]), *rng.pick(&[0u64, 1, 10])),
+            "rolled-nonchords" => {
+                h.push(Ev::P(k("x")));
+                t(&mut h, *rng.pick(&[0u64, 2, 15]));
+                h.push(Ev::P(k("spc")));
+                t(&mut h, *rng.pick(&[1u64, 5]));
+                h.push(Ev::R(k("x")));
+                t(&mut h, *rng.pick(&[0u64, 3, 30]));
+                h.push(Ev::R(k("spc")));
+            }
+            "deadline-expiry" => {
+                let d = (deadline as i64 + *rng.pick(&[-1i64, 0, 1, 2, 10])).max(1) as u64;
+                tap(&mut h, "d", d);
+            }
+            "chord-activation" => {
+                disturbs = false;
+                h.push(Ev::P(k("d")));
+                t(&mut h, *rng.pick(&[0u64, 1, 3]));
+                h.push(Ev::P(k("y")));
+                t(&mut h, *rng.pick(&[1u64, 10]));
+                h.push(Ev::R(k("d")));
+                t(&mut h, *rng.pick(&[0u64, 1]));
+                h.push(Ev::R(k("y")));
+            }
+            "ignored-key-tap" => {
+                disturbs = false;
+                tap(&mut h, "lsft", 5);
+            }
+            _ => disturbs = false,
+        }
+        // idle gap: around the reactivation time, everything below the forced reset; a few above
+        let r = react;
+        let mut pool: Vec<u64> = vec![0, 1, r / 2, r.saturating_sub(2), r.saturating_sub(1), r, r + 1, r + 2, r + 3, 2 * r, 3 * r + 7, 1000, 3000, 6000, 9000, 9990];
+        pool.retain(|g| *g < ZCH_FORCED_RESET - 5);
+        let gap = if rng.chance(1, 10) { *rng.pick(&[10_001u64, 12_000, 70_000]) } else { *rng.pick(&pool) };
+        // sometimes the gap is interrupted by a key zippychord ignores: the loop wakes up, the
+        // countdowns must go on
+        let gap_from = h.len();
+        let split = gap >= 8 && rng.chance(1, 4);
+        if split {
+            let g1 = 1 + rng.below(gap - 6);
+            t(&mut h, g1);
+            tap(&mut h, "lsft", 2);
+            t(&mut h, gap - g1 - 2);
+        } else {
+            t(&mut h, gap);
+        }
+        let probe_from = h.len();
+        let shifted = rng.chance(1, 6);
+        if shifted {
+            h.push(Ev::P(k("lsft")));
+            t(&mut h, 2);
+        }
+        let (a, b) = *rng.pick(&[("d", "y"), ("y", "d"), ("d", "y"), ("y", "a")]);
+        h.push(Ev::P(k(a)));
+        let late_second = rng.chance(1, 4);
+        if late_second {
+            t(&mut h, (deadline as i64 + *rng.pick(&[-2i64, -1, 0, 1, 2, 10])).max(1) as u64);
+        } else {
+            t(&mut h, *rng.pick(&[0u64, 1, 3, 10]));
+        }
+        h.push(Ev::P(k(b)));
+        t(&mut h, *rng.pick(&[1u64, 5, 20]));
+        h.push(Ev::R(k(a)));
+        t(&mut h, *rng.pick(&[0u64, 1, 4]));
+        h.push(Ev::R(k(b)));
+        if shifted {
+            t(&mut h, 1);
+            h.push(Ev::R(k("lsft")));
+        }
+        let probe_to = h.len();
+        marks.push(ZrMark { opening, disturbs, gap, split, late_second, gap_from, probe_from, probe_to });
+        // a follow-up key or nothing, then a pause before the next round
+        if rng.coin() {
+            t(&mut h, *rng.pick(&[1u64, 10, 100]));
+            tap(&mut h, "1", 3);
+        }
+        t(&mut h, *rng.pick(&[0u64, 1, 30, r + 5, 1500]));
+    }
+    (h, marks)
+}
+
 struct Case {
+    zr_marks: Vec<Vec<ZrMark>>,
     kind: &'static str,
     s: Shaped,
     kinds_used: Vec<&'static str>,
@@ -740,7 +1086,7 @@ fn n_real(ctx: &Ctx) -> u64 {
     ctx.tier.sel(40, 300)
 }
 fn n_shaped(ctx: &Ctx) -> u64 {
-    ctx.tier.sel(960, 24_000)
+    ctx.tier.sel(1020, 25_500)
 }
 fn n_random(ctx: &Ctx) -> u64 {
     ctx.tier.sel(800, 20_000)
@@ -766,7 +1112,7 @@ fn make_case(ctx: &Ctx, idx: u64) -> Case {
         let ku: Vec<&'static str> = g.kinds_used.iter().copied().collect();
         (
             "random",
-            Shaped { feature: "random-grammar", text: g.text, files: g.files, keys: g.keys, numbers: g.numbers, red: g.rapid_event_delay, zippy: false },
+            Shaped { feature: "random-grammar", text: g.text, files: g.files, keys: g.keys, numbers: g.numbers, red: g.rapid_event_delay, zippy: false, zr: None },
             ku,
         )
     };
@@ -774,7 +1120,21 @@ fn make_case(ctx: &Ctx, idx: u64) -> Case {
     let (small, big) = gap_pools(&s.numbers);
     let mut hists = vec![];
     let mut final_gaps = vec![];
+    let mut zr_marks = vec![];
     for i in 0..nh {
+        if let Some((react, deadline)) = s.zr {
+            // scripted rounds; every other history continues with a short random tail
+            let (mut h, marks) = zr_hist(&mut rng, react, deadline);
+            if i % 2 == 1 {
+                let n = 2 + rng.usize(10);
+                h.extend(gen_hist(&mut rng, &keys, n, &small, &big, 1, false));
+            }
+            hists.push(h);
+            zr_marks.push(marks);
+            final_gaps.push(*rng.pick(&[1u64, 50, 300, 1000, 1000, 1000, 10_001, 70_000]));
+            continue;
+        }
+        zr_marks.push(vec![]);
         let n = 4 + rng.usize(ctx.tier.sel(30, 60));
         let mut h = if i % 2 == 0 { scripted_prefix(&mut rng, &s) } else { vec![] };
         let calm = i % 3 == 2;
@@ -817,7 +1177,7 @@ fn make_case(ctx: &Ctx, idx: u64) -> Case {
         hists.push(h);
         final_gaps.push(*rng.pick(&[1u64, 50, 300, 1000, 1000, 1000, 10_001, 70_000]));
     }
-    Case { kind, s, kinds_used, hists, final_gaps }
+    Case { zr_marks, kind, s, kinds_used, hists, final_gaps }
 }
 
 fn spin_bound(s: &Shaped) -> u64 {
@@ -944,6 +1304,47 @@ fn run_emu_case(ctx: &Ctx, idx: u64, out: &mut CaseOut) {
             }
             let buckets: std::collections::BTreeSet<&str> = j.l.blocks.iter().map(|b| gap_bucket(b.gap)).collect();
             out.tag(format!("{ku}|f{fmask:x}|{}", buckets.into_iter().collect::<Vec<_>>().join(",")));
+        }
+        if let (Some((react, _)), Some(marks)) = (c.s.zr, c.zr_marks.get(hi)) {
+            // wall time at which the history element with a given index happens
+            let mut at = Vec::with_capacity(h.len() + 1);
+            let mut tt = T0;
+            for e in h.iter() {
+                at.push(tt);
+                if let Ev::T(n) = e {
+                    tt += *n as u64;
+                }
+            }
+            at.push(tt);
+            for m in marks {
+                let (g0, p0, p1) = (at[m.gap_from], at[m.probe_from], at[m.probe_to] + 3);
+                let expanded = j.ltrace.iter().any(|o| o.kind == crate::core::sim::OutKind::Down && o.name == "BSpace" && o.at >= p0 && o.at <= p1);
+                let slept: u64 = j.l.blocks.iter().filter(|b| b.t >= g0 && b.t < p0).map(|b| b.gap).sum();
+                out.inc("zr_probes");
+                out.inc(&format!("zr_opening:{}", m.opening));
+                if m.split {
+                    out.inc("zr_gap_split_by_ignored_key");
+                }
+                if slept > 0 {
+                    out.inc("zr_gap_slept");
+                }
+                if m.gap > ZCH_FORCED_RESET {
+                    out.inc("zr_gap_beyond_forced_reset");
+                }
+                if m.late_second {
+                    out.inc("zr_second_key_around_chord_deadline");
+                    out.inc(if expanded { "zr_late_second_key_expanded" } else { "zr_late_second_key_typed_plain" });
+                }
+                if m.disturbs {
+                    out.inc(if m.gap < react { "zr_gap_lt_reactivate_after_disturbance" } else { "zr_gap_ge_reactivate_after_disturbance" });
+                    out.inc(if expanded { "zr_chord_expanded_after_disturbance" } else { "zr_chord_typed_plain_after_disturbance" });
+                    if slept > 0 {
+                        out.inc("zr_gap_slept_after_disturbance");
+                    }
+                } else if expanded {
+                    out.inc("zr_chord_expanded_without_disturbance");
+                }
+            }
         }
         for (sig, what) in &j.viol {
             // minimisation is expensive: once per signature and worker process is enough (the
@@ -1267,7 +1668,7 @@ impl Check for C07Check {
         out
     }
     fn rule(&self) -> String {
-        "two kinds of case. (1) emulator cases: one configuration (16 hand-shaped families, one per time-dependent feature: tap-hold variants, one-shot variants, tap-dance lazy/eager, chords v1, chords v2 with chords-v2-min-idle, macro variants, sequences (sldr, sequence, defseq, three input modes), caps-word variants, hold-for-duration, on-idle, mwheel/movemouse/movemouse-accel, switch key-timing at the compression edges, zippychord with deadlines, dynamic-macro record/replay, a mixed one, one-shot-pause-processing/rapid-event-delay; then the whole non-latching action grammar at random) x 5 (quick) / 10 (thorough) physically consistent histories (random overlapping, 'calm' one-key-at-a-time, scripted openings that put the feature into its pending state; OS repeats in a quarter) with gaps drawn from {0,1,2,3,7, T-1,T,T+1 for every number T in the configuration, 1000, 10001, 70000}. Each history is executed twice on the real code in a virtual-time reproduction of the processing loop: L sleeps whenever can_block_update_idle_waiting says so, R replays L's iterations but ticks through every slept gap; plus a final gap after the last event. (2) real-loop cases: a time-insensitive configuration (plain keys, output chords, multi, layers, release-key/-layer, unicode, mouse buttons, overrides) is written to a scratch file, Kanata::new_arc + the real start_processing_loop thread are fed <= 24 events through the real channel with real sleeps from {0..25 ms}; the ordered OS stream is compared with the stepper's. Non-trivial = history with at least one blocked point; distinct = (action kinds or family, state features present at the blocked points, gap-length buckets).".into()
+        "two kinds of case. (1) emulator cases: one configuration (17 hand-shaped families, one per time-dependent feature: tap-hold variants, one-shot variants, tap-dance lazy/eager, chords v1, chords v2 with chords-v2-min-idle, macro variants, sequences (sldr, sequence, defseq, three input modes), caps-word variants, hold-for-duration, on-idle, mwheel/movemouse/movemouse-accel, switch key-timing at the compression edges, zippychord with deadlines, dynamic-macro record/replay, a mixed one, one-shot-pause-processing/rapid-event-delay, zippy-reenable (zippychord with idle-reactivate-time R from {default 500,5,20,50,200,700,3000} x on-first-press-chord-deadline from {default 500,20,50,200,2000} x smart-space none/add-space-only/full x 3 chord files; histories are 1..3 scripted rounds of: opening from {non-chord tap, chord-subset key tap, rolled non-chord keys, chord key held to the deadline +-1, chord activation, ignored-key tap, nothing}, idle gap from {0,1,R/2,R-2..R+3,2R,3R+7,1000,3000,6000,9000,9990} (one in ten from {10001,12000,70000}), a quarter of the gaps interrupted by a tap of lsft which zippychord ignores, then a two-key chord attempt in either order (second key 0..10 ms after the first, one in four at deadline-2..deadline+10), one in six under shift, optional follow-up key; every other history continues with random input); then the whole non-latching action grammar at random) x 5 (quick) / 10 (thorough) physically consistent histories (random overlapping, 'calm' one-key-at-a-time, scripted openings that put the feature into its pending state; OS repeats in a quarter) with gaps drawn from {0,1,2,3,7, T-1,T,T+1 for every number T in the configuration, 1000, 10001, 70000}. Each history is executed twice on the real code in a virtual-time reproduction of the processing loop: L sleeps whenever can_block_update_idle_waiting says so, R replays L's iterations but ticks through every slept gap; plus a final gap after the last event. A difference on a zippychord configuration is attributed to the known forced-reset defect only if (i) the ticking run capped so that no stretch between two certain zippy state changes (releases of non-ignored keys) executes 10000 ticks agrees with L and (ii) L kept from blocking only inside the stretches longer than 10000 ms agrees with its ticking twin; otherwise it is reported under its structural signature. (2) real-loop cases: a time-insensitive configuration (plain keys, output chords, multi, layers, release-key/-layer, unicode, mouse buttons, overrides) is written to a scratch file, Kanata::new_arc + the real start_processing_loop thread are fed <= 24 events through the real channel with real sleeps from {0..25 ms}; the ordered OS stream is compared with the stepper's. Non-trivial = history with at least one blocked point; distinct = (action kinds or family, state features present at the blocked points, gap-length buckets).".into()
     }
     fn assumptions(&self) -> Vec<String> {
         vec![
@@ -1275,6 +1676,8 @@ impl Check for C07Check {
             "R ticks g times where L slept g ms and then performs the same wake-up (event, one tick); a free-running ticker is not used as reference because its one-tick phase shift on wake legitimately changes outcomes that sit exactly on a timeout".into(),
             "the predicate turning false during R's gap ticks is counted, not reported, unless an output or a later difference follows".into(),
             "real-loop cases use only actions whose result does not depend on millisecond timing, no OS repeats, and at most 24 events (so the 32-slot queue cannot overflow under any scheduling); wall-clock trouble is inconclusive, never a violation".into(),
+            "zippychord's state is not visible from outside: the zippy-reenable counters (chord expanded / typed plain after a disturbance, gap slept) are read off the output of run L (a backspace during the chord attempt = expansion) and are evidence that both sides of the reactivation time were reached, not an oracle; whether a chord must expand is C20's question".into(),
+            "a 'certain zippy state change' is the release of a key zippychord does not ignore reaching the OS (zch_release_key always resets the counter; a press does so only while zippy is enabled, which cannot be seen); stretches are therefore over-estimated, which can only make the capped run tick less, never let the forced reset fire in it".into(),
             "latching virtual-key uses, cmd, clipboard and live-reload actions are not generated; a crash of the code under test ends the case and is C02's to report".into(),
         ]
     }
@@ -1302,6 +1705,22 @@ impl Check for C07Check {
             ("blocked_in:switch-key-timing", 20),
             ("blocked_in:zippychord", 20),
             ("blocked_in:dynamic-macro", 20),
+            ("blocked_in:zippy-reenable", 20),
+            ("zr_probes", 300),
+            ("zr_gap_lt_reactivate_after_disturbance", 40),
+            ("zr_gap_ge_reactivate_after_disturbance", 80),
+            ("zr_chord_typed_plain_after_disturbance", 40),
+            ("zr_chord_expanded_after_disturbance", 60),
+            ("zr_gap_slept_after_disturbance", 60),
+            ("zr_gap_split_by_ignored_key", 40),
+            ("zr_second_key_around_chord_deadline", 60),
+            ("zr_late_second_key_expanded", 5),
+            ("zr_late_second_key_typed_plain", 10),
+            ("zr_opening:nonchord-tap", 20),
+            ("zr_opening:subset-key-tap", 20),
+            ("zr_opening:rolled-nonchords", 20),
+            ("zr_opening:deadline-expiry", 20),
+            ("zr_opening:chord-activation", 20),
         ];
         v.push(("blocked_in:random-grammar", 200));
         v
